@@ -33,7 +33,8 @@ ENCODED = ["twisted.web.static:File._rangeToOffsetAndSize", "twisted.web.static:
            "twisted.web.static:File._doMultipleRangeRequest", "twisted.web.static:File.makeProducer",
            "twisted.web.static:File._setContentHeaders",
            "twisted.web.static:NoRangeStaticProducer", "twisted.web.static:SingleRangeStaticProducer",
-           "twisted.web.static:MultipleRangeStaticProducer"]
+           "twisted.web.static:MultipleRangeStaticProducer", "twisted.web.static:File.render_GET",
+           "twisted.python.filepath:FilePath.restat", "twisted.python.filepath:FilePath.getsize"]
 BOUNDS = {"quick": {"nd": 2, "nd2": 1, "vals": 0, "n1": 100}, "thorough": {"nd": 3, "nd2": 2, "vals": 1, "n1": 100}}
 B = {}
 BOUNDS_TEXT = ("r2os/smt_r2os: file size, first-pos, last-pos / suffix-length any integers (unbounded); "
@@ -47,8 +48,9 @@ OUTSIDE = ["a suffix range on a zero-length file: RFC 9110 calls it satisfiable 
            "other range units); 'bytes=' with no range-spec at all (see report: returns [] -> 416)",
            "the real bufferSize 65536: the producers run with a scaled-down bufferSize so that both sides of "
            "every buffer boundary are inside the bound",
-           "filesystem access, If-Range / conditional requests, HEAD (no producer is made)"]
-ASSUMPTIONS = ["getFileSize() is constant during one request and equals the length of the opened file",
+           "the real filesystem (os.stat and open() are fakes in `restat`), If-Range / conditional requests, "
+           "HEAD (no producer is made), directories / missing files"]
+ASSUMPTIONS = ["the file does not change DURING one request (between two requests it may: harness `restat`)",
                "time.time / os.getpid (multipart boundary) are stubbed inside twisted.web.static for determinism",
                "LBytes reproduces bytes semantics for split/strip/int (differential selftest on every run; int() "
                "uses a local shim that also implements CPython's digit-group underscores)"]
@@ -828,6 +830,95 @@ def multi_buf(n1: int, n2: int, n3: int) -> bool:
     return _multi_expect(req, content, size, specs)
 
 
+# ---- (5) the file changes on disk between two requests on the same File object ---------------------------
+
+class _Stat:
+    """what os.stat() says about the fake file right now"""
+    st_mode = 0o100644
+
+    def __init__(self, size):
+        self.st_size = size
+        self.st_mtime = 1000.0 + size
+
+
+class _DiskFile(_static.File):
+    """static.File on a fake disk: stat() (rebound inside twisted.python.filepath for the duration of the
+    harness) and openForReading() see the CURRENT content"""
+    disk = None
+
+    def openForReading(self):
+        return _MemFile(self.disk["content"])
+
+
+class _Req2(_Req):
+    def setLastModified(self, when):
+        return None
+
+
+def _content(size, salt):
+    return bytes((i * 7 + salt) % 251 for i in range(size))
+
+
+def _render(f, rng):
+    req = _Req2(rng)
+    r = f.render_GET(req)
+    n = 0
+    p = req.producer
+    while req.producer is not None and n < 400:
+        p.resumeProducing()
+        n += 1
+    return req, r
+
+
+_RSIZES = [0, 1, 5, 10, 11]
+_RSPECS = [None, (0, None), (None, 3), (2, 4), (5, None), (10, 10), (None, 0), (7, 20)]
+
+
+def restat(s1: int, s2: int, ri: int) -> bool:
+    """
+    pre: 0 <= s1 < len(_RSIZES) and 0 <= s2 < len(_RSIZES) and 0 <= ri < len(_RSPECS)
+    post: _
+    """
+    # request 1 (no Range) while the file has size1; the file is replaced (size2, other content); request 2
+    # on the SAME File object must be answered from the current file
+    from twisted.python import filepath as _fp
+    size1 = _pick(s1, _RSIZES)
+    size2 = _pick(s2, _RSIZES)
+    spec = _pick(ri, _RSPECS)
+    disk = {"content": _content(size1, 1)}
+    saved = (_fp.stat, _static.time, _static.os, _static.log.msg)
+    _fp.stat = lambda path: _Stat(len(disk["content"]))
+    _static.time, _static.os = _FakeTime, _FakeOS()
+    _static.log.msg = lambda *a, **k: None
+    try:
+        f = _DiskFile("/verif-no-such-dir/f.txt")
+        f.disk = disk
+        req1, r1 = _render(f, None)
+        disk["content"] = _content(size2, 3)
+        req2, r2 = _render(f, None if spec is None else b"bytes=" + _spec(*spec))
+    finally:
+        _fp.stat, _static.time, _static.os, _static.log.msg = saved
+    cover()
+    c1, c2 = _content(size1, 1), _content(size2, 3)
+    if not (req1.finished == 1 and req1.codes == [_http.OK] and b"".join(req1.written) == c1
+            and req1.hdrs.get(b"content-length") == b"%d" % size1):
+        return False
+    body = b"".join(req2.written)
+    h = req2.hdrs
+    if req2.finished != 1 or req2.producer is not None or len(req2.codes) != 1:
+        return False
+    if spec is None:
+        return req2.codes == [_http.OK] and body == c2 and h.get(b"content-length") == b"%d" % size2
+    exp = _rfc(size2, *spec)
+    if exp is None:
+        return (req2.codes == [_http.REQUESTED_RANGE_NOT_SATISFIABLE] and body == b""
+                and h.get(b"content-range") == b"bytes */%d" % size2 and h.get(b"content-length") == b"0")
+    first, last = exp
+    return (req2.codes == [_http.PARTIAL_CONTENT] and body == c2[first:last + 1]
+            and h.get(b"content-range") == b"bytes %d-%d/%d" % (first, last, size2)
+            and h.get(b"content-length") == b"%d" % (last - first + 1))
+
+
 HARNESSES = [
     H(r2os, shards=[("start is None",), ("start is not None", "end is None"),
                     ("start is not None", "end is not None")], timeout={"quick": 60, "thorough": 300}),
@@ -838,6 +929,7 @@ HARNESSES = [
     H(multi, shards=[("sizei == %d" % s, "bufi == %d" % k) for s in range(len(_MSIZES)) for k in (0, 1)],
       timeout={"quick": 60, "thorough": 300}),
     H(multi_buf, shards=[("n3 == 0",), ("n3 == 1",)], timeout={"quick": 60, "thorough": 300}),
+    H(restat, timeout={"quick": 120, "thorough": 300}),
 ]
 
 VECTORS = {
@@ -851,6 +943,7 @@ VECTORS = {
     "single": [(0, 4, 0, 3), (0, 4, 3, 2), (0, 0, 0, 1), (0, 5, 7, 0)],
     "multi": [(3, 0, 6, 0), (0, 0, 3, 1), (4, 7, 9, 0), (2, 2, 5, 1)],
     "multi_buf": [(0, 1, 0), (20, 2, 1), (100, 3, 0)],
+    "restat": [(3, 2, 0), (2, 3, 1), (3, 1, 3), (1, 4, 5), (4, 0, 2), (0, 3, 7)],
 }
 
 
